@@ -117,8 +117,11 @@ def parseCTape (ws : List String) : Option CTape := do
 def parseSCfg (ws : List String) : Option SCfg := do
   pure ⟨← (← kv ws "sfp").toNat?, ← (← kv ws "sdc").toInt?⟩
 
+/-- The server's tape; `adraws=` = its successive draws of `a`, of which `pickA` takes the first
+acceptable one (like `TestServerRNG.GA`). -/
 def parseSTape (ws : List String) : Option STape := do
-  pure ⟨← ofHex (← kv ws "snonce"), ← (← kv ws "pq").toNat?, ← (← kv ws "prime").toNat?, ← (← kv ws "a").toNat?,
-    ← (← kv ws "time").toInt?, 0⟩
+  let prime ← (← kv ws "prime").toNat?
+  let a ← pickA prime (← parseNats (← kv ws "adraws"))
+  pure ⟨← ofHex (← kv ws "snonce"), ← (← kv ws "pq").toNat?, prime, a, ← (← kv ws "time").toInt?, 0⟩
 
 end TdModel.C09
